@@ -130,7 +130,7 @@ var windows = []window{
 
 type outcome struct {
 	Fail bool
-	Kind string // how it fails: "" = the issuer returns an error; "no-id" = it returns a properly signed chain whose leaf carries no SPIFFE ID; "bad-id" = a leaf with a non-SPIFFE URI; "empty" = no error and no certificate
+	Kind string // how it fails: "" = the issuer returns an error; "no-id" = it returns a properly signed chain whose leaf carries no SPIFFE ID; "bad-id" = a leaf with a non-SPIFFE URI; "empty" = no error and no certificate; "err-with-chain" = an error TOGETHER WITH a perfectly usable chain (a callback that hands back what it got so far along with its error) - an error is a failure whatever comes with it
 	Win  window
 }
 
@@ -284,7 +284,9 @@ func (is *issuer) request(ctx context.Context, csrDER []byte) ([]*x509.Certifica
 		KeyUsage:     x509.KeyUsageDigitalSignature,
 		URIs:         []*url.URL{{Scheme: "spiffe", Host: "example.org", Path: "/ns/c19/app"}},
 	}
-	if oc.Fail {
+	if oc.Fail && oc.Kind == "err-with-chain" {
+		tmpl.NotBefore, tmpl.NotAfter = now, now.Add(time.Hour)
+	} else if oc.Fail {
 		// an unusable answer: a valid chain for the requested key, but not a SPIFFE identity
 		tmpl.NotBefore, tmpl.NotAfter = now, now.Add(time.Hour)
 		tmpl.URIs = nil
@@ -316,6 +318,10 @@ func (is *issuer) request(ctx context.Context, csrDER []byte) ([]*x509.Certifica
 		is.mu.Lock()
 		r.end = time.Now()
 		is.mu.Unlock()
+		if oc.Kind == "err-with-chain" {
+			rec.Count("issuer.error_returned_with_a_usable_chain", 1)
+			return issued, errIssuer
+		}
 		return issued, nil
 	}
 	is.mu.Lock()
@@ -459,7 +465,7 @@ func orderScenario(w *world, pl plan, bubble bool) (candidate string) {
 	}
 	is := &issuer{gate: make(chan struct{}), realtime: !bubble}
 	if pl.fail {
-		is.script = []outcome{{Fail: true}}
+		is.script = []outcome{{Fail: true, Kind: []string{"", "err-with-chain", "empty", "no-id", "bad-id"}[w.idx%5]}}
 	} else {
 		is.script = []outcome{{Win: windows[4]}}
 	}
@@ -612,7 +618,7 @@ func orderScenario(w *world, pl plan, bubble bool) (candidate string) {
 }
 
 func runOrder(t *testing.T, idx int, pl plan) {
-	w := &world{idx: idx, mode: "order", desc: fmt.Sprintf("order=%v fail=%v park=%v cancelEarly=%v", pl.order, pl.fail, pl.park, pl.cancelEarly)}
+	w := &world{idx: idx, mode: "order", desc: fmt.Sprintf("order=%v fail=%v(kind %d) park=%v cancelEarly=%v", pl.order, pl.fail, idx%5, pl.park, pl.cancelEarly)}
 	rec.Begin(idx, w.mode+" "+w.desc)
 	var cand string
 	res := mon.Bubble(t, func() {
@@ -668,7 +674,7 @@ func runRenewal(t *testing.T, idx int, rng *mon.RNG) {
 	var ds []string
 	for i := range script {
 		if i > 0 && rng.Chance(1, 3) {
-			script[i] = outcome{Fail: true, Kind: rng.PickStr("", "", "no-id", "bad-id", "empty", "anchors-err")}
+			script[i] = outcome{Fail: true, Kind: rng.PickStr("", "err-with-chain", "no-id", "bad-id", "empty", "anchors-err", "err-with-chain")}
 			if script[i].Kind != "" {
 				rec.Count("renewal.unusable_answer_scripted", 1)
 			}
